@@ -17,7 +17,10 @@ from fractions import Fraction
 
 import numpy as np
 
-from harness.core import PropertyCheck
+from harness.core import REPO, PropertyCheck, TieBroken
+from harness.props import c19_mask as MK
+from harness.props import c19_more as MR
+from harness.props import c19_registry as RG
 from harness.util import Snapshot, all_close, cmp_rats, errname, fr, frs, parse_rats
 
 SCHEDS = ["st_01234", "st_43210", "st_02413", "st_13024", "st_42031", "st_odd0_even1",
@@ -26,6 +29,10 @@ ALIASES = {"st_01234": "ascending", "st_43210": "descending", "st_02413": "asc_a
            "st_13024": "asc_alt_2_1", "st_42031": "desc_alt_2", "st_odd0_even1": "asc_alt_siemens",
            "st_03142": "asc_alt_half", "st_41302": "desc_alt_half"}
 TRS = [1.0, 2.0, 2.5, 3.0, 0.75, 1.1, 0.72, 2.2]
+TSD_DTYPES = ["float64"] * 6 + ["uint8", "int16", "int8", "uint16", "int32", "float32"]
+PCA_DTYPES = ["float64"] * 7 + ["int8", "int16", "float32", "uint8"]
+INT_RANGE = {"uint8": (0, 256), "int8": (-128, 128), "int16": (-30000, 30000), "uint16": (0, 65536),
+             "int32": (-40000, 40000)}
 
 
 def documented_order(name, n):
@@ -83,59 +90,67 @@ def int_array(seed, shape, lo=-4, hi=5):
     return np.random.RandomState(seed).randint(lo, hi, size=shape).astype(float)
 
 
-def flood_components(mask):
-    """independent 6-connectivity labelling (face neighbours), any ndim"""
-    mask = np.asarray(mask) != 0
-    lab = np.zeros(mask.shape, int)
-    cur = 0
-    for start in zip(*np.nonzero(mask)):
-        if lab[start]:
-            continue
-        cur += 1
-        stack = [start]
-        lab[start] = cur
-        while stack:
-            p = stack.pop()
-            for ax in range(mask.ndim):
-                for d in (-1, 1):
-                    q = list(p); q[ax] += d
-                    if 0 <= q[ax] < mask.shape[ax]:
-                        q = tuple(q)
-                        if mask[q] and not lab[q]:
-                            lab[q] = cur
-                            stack.append(q)
-    return lab, cur
+flood_components = MK.flood_components
 
 
 class C19(PropertyCheck):
     id = "C19"
     title = "Array-level analyses respect axis conventions and their decompositions"
-    lean_modules = ["NipyVerif.Props.C19"]
+    lean_modules = ["NipyVerif.Props.C19", "NipyVerif.Props.C19B", "NipyVerif.Props.C19C"]
     driver = "Drivers/C19.lean"
-    rule = ("slice schedules: every n in 1..200 for all 8 schedules and their aliases; time_slice_diffs: the "
-            "complete (ndim 2..5) x (time axis, negative included) x (slice axis or None) table on seeded "
-            "integer arrays, plus out-of-range axes and named image axes; pca: seeded arrays of 2..5 dims, "
-            "every axis, mask / ncomp / standardize / design variants; masks and generators: seeded small "
-            "volumes; non-trivial = at least two time points / two slices / two masks / two labels; "
-            "distinct by full JSON of the case")
+    rule = ("slice schedules: every n in 1..200 for all 8 schedules and their aliases, and every key of the live "
+            "SLICETIME_FUNCTIONS against the table regenerated from timefuncs.py; slice times as consumed by "
+            "SpaceTimeRealign / FmriRealign4d (str / short / alias / callable / array, slice_info int or (axis, +-1)); "
+            "time_slice_diffs: the complete (ndim 2..5) x (time axis, negative included) x (slice axis or None) "
+            "table on seeded arrays of float64 / float32 / uint8 / int8 / int16 / uint16 / int32 in C / Fortran / "
+            "reversed / list layouts, out-of-range axes, named image axes, screens.screen; pca: seeded arrays of "
+            "2..5 dims (float / int8 / int16 / uint8), every axis, mask / ncomp / standardize / design variants; "
+            "masks: collections of 1..13, 127..300 and 2**15 (+1) masks of every dtype with 0/1 and other values, "
+            "every threshold separating two voxel counts, files; compute_mask / _files / _sessions (1..300 "
+            "sessions, images / 4-D / file lists) on every volume dtype; largest_cc with up to 65600 components; "
+            "series_from_mask; generators incl. label sequences of up to 70000 entries; non-trivial = at least two "
+            "time points / slices / masks / sessions / labels; distinct by full JSON of the case")
     assumptions = [
         "np.argsort of a permutation is its inverse permutation (model: position lookup); checked for n = 1..200",
         "numpy.linalg.svd / eigh / pinv and sqrt are parameters of the PCA model: the factors the real run "
         "computed are recorded and passed to the model as exact dyadic rationals; orthonormality of the "
         "basis and the SVD equivalence are proved from the eigh/svd contracts (hypotheses) and checked "
         "numerically by the oracle",
-        "np.argsort(-D) is modelled by a stable descending sort (eigenvalue ties do not occur for the generic data generated)",
+        "np.argsort(-D) is modelled by a stable descending sort; basis vectors of numerically tied eigenvalues "
+        "are not compared",
         "scipy.ndimage.label supplies the component labels to the model of largest_cc / "
         "threshold_connect_components; the oracle re-labels with an independent flood fill",
-        "ndimage.binary_opening and the float rounding of threshold*len / m*len are outside the model "
-        "(model lines only where the float product is exact); affine invariance of compute_mask is proved over "
-        "the rationals and checked on the real code with exactly representable affine maps",
+        "ndimage.binary_opening, ndimage.gaussian_filter and the float rounding of threshold*len / m*len are "
+        "outside the model (model lines only where the float product is exact; thresholds within 1e-3 of a "
+        "voxel count are not judged by the oracle)",
+        "the membership count of intersect_masks / compute_mask_sessions is an unbounded integer in the model "
+        "(np.int_ in the code: exact below 2**63 masks)",
         "the per-slice highest-difference search of time_slice_diffs is modelled slice by slice (loop interchange)",
         "time_slice_diffs with a single time point (0/0) is outside the model",
+        "nibabel file I/O (compute_mask_files, series_from_mask, file-name arguments) is exercised by the oracle "
+        "only; the model sees the arrays as loaded",
+        "the shape of each st_* body, of _dec_register_stf and of _derived_func is recognised syntactically by "
+        "the translator (TieBroken otherwise); interp_slice_times is modelled on rational slice positions",
     ]
     level_note = ("PCA orthonormality / SVD equivalence are hypothesis-parameterised (eigh, svd contracts); "
-                  "connected-component labelling and morphological opening are oracle-only")
-    finding_keys = {}
+                  "connected-component labelling, morphological opening and Gaussian smoothing are oracle-only")
+    finding_keys = {
+        "C19-intersect-nonbinary": "intersect_masks sums mask values (first mask truncated to int) instead of "
+                                   "counting memberships",
+        "C19-sessions-int8": "compute_mask_sessions counts in int8: wraps from 128 sessions",
+        "C19-sessions-threshold-1": "compute_mask_sessions(threshold=1) is empty instead of the intersection",
+        "C19-sessions-mean": "compute_mask_sessions(return_mean=True) with image sessions returns a wrong mean "
+                             "and writes into the images' data",
+        "C19-cmask-integer": "compute_mask on integer volumes: threshold midpoint overflows the integer type",
+        "C19-tsd-integer": "time_slice_diffs on integer arrays subtracts / squares in the integer type",
+        "C19-pca-integer": "pca(standardize=True, design_resid=None) squares integer data in the integer type",
+        "C19-matrix-generator-1d": "matrix_generator raises TypeError on 1-D items (np.prod(()) is a float)",
+        "C19-screen-time-name": "screen drops the axis named 't' instead of the time axis it was given",
+    }
+
+    def translators(self):
+        """nipy/algorithms/slicetiming/timefuncs.py -> lean/NipyVerif/Gen/C19Registry.lean"""
+        return RG.translate(REPO, TieBroken)
 
     # ------------------------------------------------------------------ generation
     def generate(self, rng, tier):
@@ -148,6 +163,8 @@ class C19(PropertyCheck):
         # rollaxis table
         for n in range(1, 6):
             cases.append({"kind": "rollaxis", "n": n})
+        # collections of masks first: the large collections are the longest cases
+        cases += MK.gen_intersect(rng, quick)
         # time_slice_diffs: complete axis table
         reps = 1 if quick else 8
         for rep in range(reps):
@@ -157,7 +174,8 @@ class C19(PropertyCheck):
                         shape = rand_shape(rng, nd)
                         shape[ta % nd] = rng.choice([2, 3, 4, 5])
                         cases.append({"kind": "tsd", "shape": shape, "seed": rng.randrange(1 << 30),
-                                      "ta": ta, "sa": sa, "frac": rng.random() < 0.2})
+                                      "ta": ta, "sa": sa, "frac": rng.random() < 0.2,
+                                      "dtype": rng.choice(TSD_DTYPES), "layout": rng.choice(["C", "C", "F", "rev", "list"])})
         for _ in range(30 if quick else 300):   # out-of-range axes
             nd = rng.choice([2, 3, 4])
             shape = [rng.choice([2, 3]) for _ in range(nd)]
@@ -186,34 +204,23 @@ class C19(PropertyCheck):
                           "ncomp": rng.choice([None, None, 1, 2, T - 1]),
                           "standardize": rng.random() < 0.5,
                           "keep": rng.choice([None, None, None, "rand"]),
-                          "resid": rng.choice(["mean", "mean", None, "rand"])})
+                          "resid": rng.choice(["mean", "mean", None, "rand"]),
+                          "dtype": rng.choice(PCA_DTYPES)})
         for _ in range(10 if quick else 150):
             cases.append({"kind": "pcaimg", "shape": [rng.choice([2, 3]) for _ in range(3)] + [rng.choice([4, 5])],
                           "seed": rng.randrange(1 << 30), "names": rng.choice(["ijkt", "tijk", "ijtk"]),
                           "axis": rng.choice(["t", "t", -1, 0, 3, "i", "x"]), "mask": rng.random() < 0.4})
-        # masks
-        for _ in range(120 if quick else 5000):
-            shape = [rng.choice([2, 3, 4]) for _ in range(3)]
-            k = rng.choice([1, 2, 3, 3, 4, 5, 8])
-            thr = rng.choice([0.0, 0.25, 0.5, 0.5, 0.75, 1.0, 0.125, 1 / 3, 0.3, 0.9, 2 / 3, 0.2, 1.5, -0.25, 1.0])
-            cases.append({"kind": "intersect", "shape": shape, "seed": rng.randrange(1 << 30), "k": k,
-                          "thr": thr, "dens": rng.choice([0.3, 0.5, 0.8, 0.95]),
-                          "mtype": rng.choice(["bool", "bool", "int", "float", "floatfrac"])})
-        for _ in range(80 if quick else 3000):
-            shape = [rng.choice([2, 3, 4, 5]) for _ in range(3)]
-            cases.append({"kind": "cc", "shape": shape, "seed": rng.randrange(1 << 30),
-                          "dens": rng.choice([0.0, 0.15, 0.3, 0.45, 0.6, 1.0]),
-                          "thr": rng.choice([0, 1, 2, 3, 5, 2.5, 100]),
-                          "mtype": rng.choice(["bool", "int", "float"])})
-        for _ in range(80 if quick else 3000):
-            shape = [rng.choice([3, 4, 5, 6]) for _ in range(3)]
-            cases.append({"kind": "cmask", "shape": shape, "seed": rng.randrange(1 << 30),
-                          "m": rng.choice([0.2, 0.25, 0.125, 0.0, 0.5, 0.3]),
-                          "M": rng.choice([0.9, 0.875, 0.75, 0.5, 0.95]),
-                          "excl": rng.random() < 0.3, "ties": rng.random() < 0.4,
-                          "a": rng.choice([2.0, 0.5, 4.0, 1.0, 8.0, 3.0]),
-                          "b": rng.choice([0.0, 16.0, -8.0, 100.0, 1.0]),
-                          "ref": rng.random() < 0.4})
+        # masks (harness/props/c19_mask.py)
+        cases += MK.gen_cc(rng, quick)
+        cases += MK.gen_cmask(rng, quick)
+        cases += MK.gen_sessions(rng, quick)
+        cases += MK.gen_cmfiles(rng, quick)
+        cases += MK.gen_series(rng, quick)
+        # slice-time registry / use in realignment, screens, generators (harness/props/c19_more.py)
+        cases += MR.gen_streg(rng, quick)
+        cases += MR.gen_strealign(rng, quick)
+        cases += MR.gen_screen(rng, quick)
+        cases += MR.gen_gens(rng, quick)
         # generators
         for _ in range(80 if quick else 3000):
             nd = rng.choice([1, 2, 3])
@@ -258,7 +265,7 @@ class C19(PropertyCheck):
                     continue
                 lines.append(f"st {nm} {n} {fr(tr)}")
                 impl.append(("rats", t.tolist(), 1e-12))
-                if fail is None and nm == name:
+                if fail is None:
                     slot = t / (tr / n)
                     k = np.rint(slot).astype(int)
                     if t.shape != (n,):
@@ -309,17 +316,31 @@ class C19(PropertyCheck):
     # ---- time_slice_diffs
     def _tsd(self, c):
         from nipy.algorithms.diagnostics.timediff import time_slice_diffs
-        a = int_array(c["seed"], c["shape"], *((0, 2) if c["seed"] % 4 == 0 else (-4, 5)))
-        if c.get("frac"):
-            a = a / 4 + 0.5
+        dt = c.get("dtype", "float64")
+        rt = 1e-5 if dt == "float32" else 1e-12   # float32 volumes are averaged in float32
+        if dt in INT_RANGE:
+            # integer volumes over the whole range of their type (differences pass the type's maximum)
+            a = np.random.RandomState(c["seed"]).randint(*INT_RANGE[dt], size=c["shape"]).astype(dt)
+        else:
+            a = int_array(c["seed"], c["shape"], *((0, 2) if c["seed"] % 4 == 0 else (-4, 5)))
+            if c.get("frac"):
+                a = a / 4 + 0.5
+            a = a.astype(dt)   # small dyadic values: exact in float32 as well
+        lay = c.get("layout", "C")
+        if lay == "F":
+            a = np.asfortranarray(a)
+        elif lay == "rev":
+            a = a[::-1].copy()[::-1]
+        af = np.asarray(a, dtype=float)
         nd, ta, sa = a.ndim, c["ta"], c["sa"]
-        line = f"tsd {vview(a)} {ta} {'none' if sa is None else sa}"
+        line = f"tsd {vview(af)} {ta} {'none' if sa is None else sa}"
         snap = Snapshot(a=a)
+        arg = a.tolist() if lay == "list" else a
         valid = -nd <= ta < nd and (sa is None or -nd <= sa < nd)
         tan = ta % nd if valid else None
         san = ((sa % nd) if sa is not None else (nd - 2 if tan == nd - 1 else nd - 1)) if valid else None
         try:
-            r = time_slice_diffs(a, ta, sa)
+            r = time_slice_diffs(arg, ta, sa)
         except Exception as e:
             fail = None
             if valid and tan != san:
@@ -333,7 +354,7 @@ class C19(PropertyCheck):
                r["volume_means"].ravel().tolist(), list(r["diff2_mean_vol"].shape),
                r["diff2_mean_vol"].ravel().tolist(), r["slice_diff2_max_vol"].ravel().tolist()]
         fail = None
-        tags = ["tsd", f"tsd-ndim{nd}", "tsd-slice-none" if sa is None else "tsd-slice-given"]
+        tags = ["tsd", f"tsd-ndim{nd}", "tsd-slice-none" if sa is None else "tsd-slice-given", "tsd-" + dt]
         if not valid:
             tags.append("tsd-out-of-range-accepted")
         elif tan == san:
@@ -348,32 +369,32 @@ class C19(PropertyCheck):
             volaxes = [i for i in range(nd) if i != tan]
             perm = [volaxes.index(x) for x in rest + [san]]
             for k in ("volume_mean_diff2", "slice_mean_diff2", "volume_means"):
-                if r[k].shape != r2[k].shape or not np.allclose(r[k], r2[k], rtol=1e-12, atol=1e-12):
+                if r[k].shape != r2[k].shape or not np.allclose(r[k], r2[k], rtol=rt, atol=rt):
                     fail = fail or f"time_slice_diffs(time={ta}, slice={sa}) {k} differs from the call on the axis-moved array"
             for k in ("diff2_mean_vol", "slice_diff2_max_vol"):
                 v = r[k].transpose(perm)
-                if v.shape != r2[k].shape or not np.allclose(v, r2[k], rtol=1e-12, atol=1e-12):
+                if v.shape != r2[k].shape or not np.allclose(v, r2[k], rtol=rt, atol=rt):
                     fail = fail or f"time_slice_diffs(time={ta}, slice={sa}) {k} is not the transposed result of the axis-moved call"
             # (2) definition
-            x = a.transpose([tan, san] + rest)
+            x = af.transpose([tan, san] + rest)
             T, S = x.shape[:2]
             d = (x[1:] - x[:-1]) ** 2
             dm = d.reshape(T - 1, S, -1).mean(-1)
             defs = {"volume_mean_diff2": d.reshape(T - 1, -1).mean(-1), "slice_mean_diff2": dm,
                     "volume_means": x.reshape(T, -1).mean(-1)}
             for k, v in defs.items():
-                if r[k].shape != v.shape or not np.allclose(r[k], v, rtol=1e-12, atol=1e-12):
-                    fail = fail or f"time_slice_diffs {k} differs from its definition"
+                if r[k].shape != v.shape or not np.allclose(r[k], v, rtol=rt, atol=rt):
+                    fail = fail or f"time_slice_diffs {k} of a {dt} array differs from its definition"
             volperm = [([san] + rest).index(i) for i in volaxes]
-            if not np.allclose(r["diff2_mean_vol"], d.mean(0).transpose(volperm), rtol=1e-12, atol=1e-12):
+            if not np.allclose(r["diff2_mean_vol"], d.mean(0).transpose(volperm), rtol=rt, atol=rt):
                 fail = fail or "diff2_mean_vol is not the mean over time of the squared differences"
             mv = np.zeros(x.shape[1:])
             for s in range(S):
                 t = int(np.argmax(dm[:, s]))
                 mv[s] = d[t, s]
-            if not np.allclose(r["slice_diff2_max_vol"], mv.transpose(volperm), rtol=1e-12, atol=1e-12):
+            if not np.allclose(r["slice_diff2_max_vol"], mv.transpose(volperm), rtol=rt, atol=rt):
                 fail = fail or "slice_diff2_max_vol is not, per slice, the squared-difference slice of largest mean"
-        return {"lines": [line], "impl": [("parts", obs)], "oracle": fail,
+        return {"lines": [line], "impl": [("parts", obs, 1e-5 if dt == "float32" else 1e-10)], "oracle": fail,
                 "nontrivial": a.shape[tan] >= 2 and a.size > a.shape[tan] if valid and tan != san else False,
                 "tags": tags, "mutated": mut}
 
@@ -436,6 +457,11 @@ class C19(PropertyCheck):
         rs = np.random.RandomState(c["seed"])
         shape = c["shape"]
         data = np.round(rs.randn(*shape) * 8) / 8 + rs.randint(-2, 3)
+        dt = c.get("dtype", "float64")
+        if dt in INT_RANGE:
+            data = rs.randint(*INT_RANGE[dt], size=shape).astype(dt)
+        else:
+            data = data.astype(dt)
         nd = len(shape)
         ax = c["axis"] % nd
         T = shape[ax]
@@ -492,13 +518,13 @@ class C19(PropertyCheck):
         except Exception as e:
             return {"lines": [], "impl": [], "nontrivial": True, "tags": ["pca", "pca-raised"], "mutated": None,
                     "oracle": f"pca raised {type(e).__name__}: {e} (axis={c['axis']}, shape={c['shape']}, "
-                              f"mask={c['mask']}, ncomp={c['ncomp']}, keep={c['keep']}, resid={c['resid']})"}
+                              f"mask={c['mask']}, ncomp={c['ncomp']}, keep={c['keep']}, resid={c['resid']}, dtype={c.get('dtype')})"}
         mut = snap.changed()
         UXf, SX, _ = rec["svd"]
         D, Vs = rec["eigh"]
         rank = len(D)
         UX = UXf[:, :rank].T
-        rolled = np.rollaxis(data, c["axis"])
+        rolled = np.rollaxis(np.asarray(data, dtype=float), c["axis"])
         Y = rolled.reshape(T, -1)
 
         def project_resid(Yv):
@@ -519,7 +545,7 @@ class C19(PropertyCheck):
                 return {"lines": [], "impl": [], "oracle": None, "nontrivial": False,
                         "tags": ["pca", "pca-degenerate-standardisation"], "mutated": mut}
         ncomp = rank if c["ncomp"] is None else min(c["ncomp"], rank)   # only `rank` components exist
-        line = (f"pca {vview(data)} {c['axis']} {pmatf(UX)} {optvol(scales)} "
+        line = (f"pca {vview(np.asarray(data, dtype=float))} {c['axis']} {pmatf(UX)} {optvol(scales)} "
                 f"{optvol(None if mask is None else np.asarray(mask, dtype=float))} "
                 f"{rank} {frs(D.tolist())} {pmatf(Vs)} {ncomp}")
         bv = r["basis_vectors"]
@@ -529,7 +555,7 @@ class C19(PropertyCheck):
         # ---------------- oracle
         fail = None
         tags = ["pca", f"pca-ndim{nd}", "pca-mask-" + c["mask"], "pca-std" if c["standardize"] else "pca-nostd",
-                "pca-neg-axis" if c["axis"] < 0 else "pca-pos-axis"]
+                "pca-neg-axis" if c["axis"] < 0 else "pca-pos-axis", "pca-" + c.get("dtype", "float64")]
         pv = r["pcnt_var"]
         G = bv.T @ bv
         if r["axis"] != ax:
@@ -645,166 +671,34 @@ class C19(PropertyCheck):
 
     # ---- masks
     def _intersect(self, c):
-        from nipy.labs import mask as M
-        rs = np.random.RandomState(c["seed"])
-        masks = []
-        for _ in range(c["k"]):
-            m = rs.rand(*c["shape"]) < c["dens"]
-            mt = c["mtype"]
-            if mt == "int":
-                m = m.astype(np.int8)
-            elif mt == "float":
-                m = m.astype(float)
-            elif mt == "floatfrac":
-                m = m * rs.choice([1.0, 1.0, 0.5, 1.5], size=c["shape"])
-            masks.append(m)
-        thr, k = c["thr"], c["k"]
-        cap = 1 - 1.e-7
-        snap = Snapshot(masks=masks)
-        lines, impl, fail = [], [], None
-        tags = ["intersect", "intersect-" + c["mtype"]]
-        try:
-            g = M.intersect_masks(masks, threshold=thr, cc=False)
-            obs = ("bools", np.asarray(g).astype(int).ravel().tolist())
-        except Exception as e:
-            g = None
-            obs = ("text", errname(e))
-            if 0 <= thr <= 1:
-                fail = f"intersect_masks raised {type(e).__name__}: {e} for threshold {thr}"
-            tags.append("intersect-refused")
-        mut = snap.changed()
-        exact = Fraction(min(thr, cap)) * k == Fraction(min(thr, cap) * k) or thr in (0.0, 1.0) or not (0 <= thr <= 1)
-        if exact:
-            flat = " ".join(frs(np.asarray(m, dtype=float).ravel().tolist()) for m in masks)
-            lines.append(f"intersect {fr(thr)} {fr(cap)} {k} {int(np.prod(c['shape']))} {flat}")
-            impl.append(obs)
-        if g is not None and fail is None and c["mtype"] != "floatfrac":
-            cnt = sum((np.asarray(m) != 0).astype(int) for m in masks)
-            if g.dtype != bool or g.shape != tuple(c["shape"]):
-                fail = f"intersect_masks returned dtype {g.dtype} shape {g.shape}"
-            elif thr == 1.0 and not np.array_equal(g, cnt == k):
-                fail = "intersect_masks(threshold=1) is not the intersection of all masks"
-            elif thr == 0.0 and not np.array_equal(g, cnt >= 1):
-                fail = "intersect_masks(threshold=0) is not the union of all masks"
-            elif not np.array_equal(g, cnt > Fraction(thr) * k) and exact and thr < 1:
-                fail = f"intersect_masks(threshold={thr}) is not 'in more than threshold*n masks'"
-            if fail is None and 0 <= thr <= 1:
-                # cc=True keeps the largest component of the same set
-                g2 = M.intersect_masks(masks, threshold=thr, cc=True)
-                lab, nb = flood_components(g)
-                if nb == 0:
-                    ok = not g2.any()
-                else:
-                    sizes = np.bincount(lab.ravel())[1:]
-                    _, nb2 = flood_components(g2)
-                    ok = nb2 == 1 and g2.sum() == sizes.max() and not (g2 & ~g).any()
-                if not ok:
-                    fail = "intersect_masks(cc=True) is not a largest connected component of the cc=False result"
-        return {"lines": lines, "impl": impl, "oracle": fail, "nontrivial": k >= 2, "tags": tags, "mutated": mut}
+        return MK.run_intersect(c)
 
     def _cc(self, c):
-        from scipy import ndimage
-        from nipy.labs import mask as M
-        rs = np.random.RandomState(c["seed"])
-        m = rs.rand(*c["shape"]) < c["dens"]
-        if c["mtype"] == "int":
-            m = m.astype(np.int16) * rs.randint(1, 4, size=c["shape"])
-        elif c["mtype"] == "float":
-            m = m * (np.round(rs.randn(*c["shape"]) * 4) / 4 + 3)
-        snap = Snapshot(m=m)
-        labels, nb = ndimage.label(m)
-        lines, impl, fail = [], [], None
-        tags = ["cc", f"cc-nb{min(nb, 3)}"]
-        flat = frs(np.asarray(m, dtype=float).ravel().tolist())
-        ltxt = " ".join(str(int(x)) for x in labels.ravel())
-        N = m.size
-        lines.append(f"largestcc {nb} {N} {flat} {N} {ltxt}")
-        mylab, mynb = flood_components(m)
-        try:
-            g = M.largest_cc(m)
-            impl.append(("bools", np.asarray(g).astype(int).ravel().tolist()))
-            if mynb == 0:
-                fail = "largest_cc returned a mask for an empty input (documented ValueError)"
-            else:
-                sizes = np.bincount(mylab.ravel())[1:]
-                _, gnb = flood_components(g)
-                if g.dtype != bool or gnb != 1 or g.sum() != sizes.max() or (g & ~(np.asarray(m) != 0)).any():
-                    fail = (f"largest_cc result is not a single largest connected component "
-                            f"(components {gnb}, size {int(g.sum())}, largest {int(sizes.max())})")
-        except Exception as e:
-            impl.append(("text", errname(e)))
-            if mynb != 0 or not isinstance(e, ValueError):
-                fail = f"largest_cc raised {type(e).__name__}: {e}"
-        thr = c["thr"]
-        lines.append(f"threshcc {nb} {fr(thr)} {N} {flat} {N} {ltxt}")
-        mm = m.copy()
-        out = M.threshold_connect_components(mm, thr)
-        impl.append(("rats", np.asarray(out, dtype=float).ravel().tolist(), 0))
-        if fail is None:
-            sizes = np.bincount(mylab.ravel())
-            want = np.where((mylab > 0) & (sizes[mylab] >= thr), m, 0)
-            if not np.array_equal(np.asarray(out), want):
-                fail = f"threshold_connect_components(threshold={thr}) does not keep exactly the components of at least that many voxels"
-            elif not np.array_equal(mm, m):
-                fail = "threshold_connect_components(copy=True) modified its input"
-        return {"lines": lines, "impl": impl, "oracle": fail, "nontrivial": mynb >= 2, "tags": tags,
-                "mutated": snap.changed()}
+        return MK.run_cc(c)
 
     def _cmask(self, c):
-        from nipy.labs import mask as M
-        rs = np.random.RandomState(c["seed"])
-        shape = c["shape"]
-        v = rs.randint(0, 40, size=shape).astype(float)
-        if not c["ties"]:
-            v = v + np.arange(v.size).reshape(shape) / 1024.0
-        lo = [s // 4 for s in shape]
-        v[lo[0]:lo[0] + shape[0] // 2 + 1, lo[1]:lo[1] + shape[1] // 2 + 1, lo[2]:lo[2] + shape[2] // 2 + 1] += 64
-        if c["excl"]:
-            v[rs.rand(*shape) < 0.2] = 0
-        ref = rs.randint(0, 100, size=shape).astype(float) if c["ref"] else None
-        m_, M_ = c["m"], c["M"]
-        snap = Snapshot(v=v, ref=ref if ref is not None else 0)
-        lines, impl, fail = [], [], None
-        tags = ["cmask"]
-        nlen = int((v != 0).sum()) if c["excl"] else v.size
-        exact = (math.floor(m_ * nlen) == math.floor(Fraction(m_) * nlen)
-                 and math.floor(M_ * nlen) == math.floor(Fraction(M_) * nlen))
-        try:
-            g = M.compute_mask(v, ref, m_, M_, cc=False, opening=0, exclude_zeros=c["excl"])
-            obs = ("cmask", np.asarray(g).astype(int).ravel().tolist())
-        except Exception as e:
-            g = None
-            obs = ("text", errname(e))
-            tags.append("cmask-refused")
-            if m_ < M_ and math.floor(m_ * nlen) < math.floor(M_ * nlen) < nlen:
-                fail = f"compute_mask raised {type(e).__name__}: {e} (m={m_}, M={M_}, {nlen} values)"
-        if exact:
-            r = v if ref is None else ref
-            lines.append(f"computemask {fr(m_)} {fr(M_)} {int(c['excl'])} {v.size} {frs(v.ravel().tolist())} "
-                         f"{r.size} {frs(r.ravel().tolist())}")
-            impl.append(obs)
-        if g is not None and not c["excl"]:
-            a, b = c["a"], c["b"]
-            for cc_, op in ((False, 0), (True, 0), (True, 1)):
-                try:
-                    g1 = M.compute_mask(v, ref, m_, M_, cc=cc_, opening=op)
-                    g2 = M.compute_mask(a * v + b, None if ref is None else a * ref + b, m_, M_, cc=cc_, opening=op)
-                except ValueError:
-                    continue   # no component left: refused for both
-                if not np.array_equal(g1, g2):
-                    fail = fail or (f"compute_mask(cc={cc_}, opening={op}) changes under the positive affine "
-                                    f"intensity map x -> {a}*x + {b}")
-            tags.append("cmask-affine")
-            # threshold semantics: the mask is a threshold of the reference at the widest histogram gap
-            s = np.sort(v.ravel())
-            i0, i1 = math.floor(m_ * s.size), math.floor(M_ * s.size)
-            d = s[i0 + 1:i1 + 1] - s[i0:i1]
-            if d.size and fail is None:
-                t = 0.5 * (s[i0 + int(np.argmax(d))] + s[i0 + int(np.argmax(d)) + 1])
-                if not np.array_equal(g, (v if ref is None else ref) >= t):
-                    fail = "compute_mask(cc=False, opening=0) is not the reference thresholded at the widest histogram gap"
-        return {"lines": lines, "impl": impl, "oracle": fail, "nontrivial": True, "tags": tags,
-                "mutated": snap.changed()}
+        return MK.run_cmask(c)
+
+    def _sessions(self, c):
+        return MK.run_sessions(c)
+
+    def _cmfiles(self, c):
+        return MK.run_cmfiles(c)
+
+    def _series(self, c):
+        return MK.run_series(c)
+
+    def _streg(self, c):
+        return MR.run_streg(c)
+
+    def _strealign(self, c):
+        return MR.run_strealign(c)
+
+    def _gens(self, c):
+        return MR.run_gens(c)
+
+    def _screen(self, c):
+        return MR.run_screen(c)
 
     # ---- generators
     def _parcels(self, c):
@@ -940,8 +834,9 @@ class C19(PropertyCheck):
                 return None
             if len(parts) != len(impl_obs[1]):
                 return f"{len(impl_obs[1])} parts from impl, {len(parts)} from model"
+            tol = impl_obs[2] if len(impl_obs) > 2 else 1e-10
             for k, (a, b) in enumerate(zip(impl_obs[1], parts)):
-                d = cmp_rats(a, b, 1e-10, 1e-10)
+                d = cmp_rats(a, b, tol, tol)
                 if d:
                     return f"part {k}: {d}"
             return None
@@ -958,6 +853,9 @@ class C19(PropertyCheck):
                 tol = 1e-7 * scale if k == 0 else 1e-7
                 if k == 1 and not all(math.isfinite(x) for x in vals[1]):
                     continue   # zero total variance: 0/0 in the implementation, 0 in exact arithmetic
+                if k in (2, 4) and all(math.isfinite(x) for x in vals[1]) and any(
+                        abs(a - b) < 1e-7 for a, b in zip(vals[1], vals[1][1:])):
+                    continue   # tied eigenvalues: np.argsort's order among the ties is not defined
                 if k == 4:
                     tol = 1e-7 * max([1.0] + [abs(float(x)) for x in vals[4]])
                 d = cmp_rats(vals[k], parts[k], 1e-7, tol)
@@ -968,19 +866,42 @@ class C19(PropertyCheck):
 
     # ------------------------------------------------------------------ shrink
     def shrink(self, case):
+        yield from MK.shrink(case)
+        yield from MR.shrink(case)
         if "shape" in case:
             for i, s in enumerate(case["shape"]):
                 if s > 1:
                     c = dict(case); sh = list(case["shape"]); sh[i] = s - 1; c["shape"] = sh
                     yield c
-        if case.get("kind") == "intersect" and case["k"] > 1:
-            c = dict(case); c["k"] = case["k"] - 1
-            yield c
         if case.get("kind") == "st" and case["tr"] != 1.0:
             c = dict(case); c["tr"] = 1.0
             yield c
 
     def classify(self, case, failure):
+        k = case.get("kind")
+        ints = ("uint8", "int8", "int16", "uint16", "int32", "int64")
+        if k == "intersect" and case.get("vals") != "01" and ("intersect_masks(threshold" in failure
+                                                             or failure.startswith("corr:")):
+            return "C19-intersect-nonbinary"
+        if k == "sessions":
+            if "return_mean=True" in failure:
+                return "C19-sessions-mean"
+            if case["thr"] == 1.0 and ("is not the intersection" in failure or "threshold-level" in failure
+                                       or failure.startswith("corr:")):
+                return "C19-sessions-threshold-1"
+            if case["n"] >= 128 and ("compute_mask_sessions(threshold" in failure or failure.startswith("corr:")):
+                return "C19-sessions-int8"
+        if k in ("cmask", "cmfiles") and case.get("dtype") in ints and (
+                "thresholded" in failure or "positive affine" in failure or failure.startswith("corr:")):
+            return "C19-cmask-integer"
+        if k == "tsd" and case.get("dtype") in ints:
+            return "C19-tsd-integer"
+        if k == "pca" and case.get("dtype") in ints and case.get("standardize") and case.get("resid") is None:
+            return "C19-pca-integer"
+        if k == "gens" and "matrix_generator raised" in failure:
+            return "C19-matrix-generator-1d"
+        if k == "screen" and case.get("tname") != "t" and "screen raised AxisError" in failure:
+            return "C19-screen-time-name"
         return None
 
 
